@@ -1,7 +1,7 @@
 use super::allocator::BlockStateTracker;
 use super::reader::ColReaderInfo;
 use super::{ReadConsistency, Walrus};
-use crate::wal::block::{Block, Entry, Metadata};
+use crate::wal::block::{Block, Entry, Metadata, decode_metadata};
 use crate::wal::config::{MAX_BATCH_ENTRIES, PREFIX_META_SIZE, checksum64, debug_print};
 use std::io;
 #[cfg(not(walrus_verif))]
@@ -9,7 +9,7 @@ use std::sync::{Arc, RwLock};
 #[cfg(walrus_verif)]
 use crate::wal::verif::sync::{Arc, RwLock};
 
-use rkyv::{AlignedVec, Deserialize};
+use rkyv::AlignedVec;
 use tracing::info;
 
 #[cfg(target_os = "linux")]
@@ -528,10 +528,9 @@ impl Walrus {
                     // Decode metadata to get read_size
                     let mut aligned = AlignedVec::with_capacity(meta_len);
                     aligned.extend_from_slice(&meta_buf[2..2 + meta_len]);
-                    let archived = unsafe { rkyv::archived_root::<Metadata>(&aligned[..]) };
-                    let meta: Metadata = match archived.deserialize(&mut rkyv::Infallible) {
-                        Ok(m) => m,
-                        Err(_) => {
+                    let meta: Metadata = match decode_metadata(&aligned[..]) {
+                        Some(m) => m,
+                        None => {
                             info!(
                                 "batch_read_for_topic: (stateless) breaking meta deserialize error"
                             );
@@ -540,8 +539,8 @@ impl Walrus {
                     };
                     let data_size = meta.read_size;
 
-                    let entry_total = (PREFIX_META_SIZE + data_size) as u64;
-                    let entry_end = scan_pos + entry_total;
+                    let entry_total = (PREFIX_META_SIZE as u64).saturating_add(data_size as u64);
+                    let entry_end = scan_pos.saturating_add(entry_total);
 
                     info!(
                         "batch_read_for_topic: (stateless) scanned entry: meta_len={}, data_size={}, entry_total={}, entry_end={}",
@@ -732,21 +731,19 @@ impl Walrus {
                     if meta_len > 0 && meta_len <= PREFIX_META_SIZE - 2 {
                         let mut aligned_peek_meta = AlignedVec::with_capacity(meta_len);
                         aligned_peek_meta.extend_from_slice(&meta_buf[2..2 + meta_len]);
-                        let archived_peek_meta =
-                            unsafe { rkyv::archived_root::<Metadata>(&aligned_peek_meta[..]) };
-                        let meta_res: Result<Metadata, _> =
-                            archived_peek_meta.deserialize(&mut rkyv::Infallible);
+                        let meta_res: Result<Metadata, ()> =
+                            decode_metadata(&aligned_peek_meta[..]).ok_or(());
                         match meta_res {
                             Ok(meta) => {
                                 let size1 = meta.read_size;
-                                let required1 = (PREFIX_META_SIZE + size1) as u64;
+                                let required1 = (PREFIX_META_SIZE as u64).saturating_add(size1 as u64);
 
                                 // --- DOUBLE PEEK START ---
                                 let mut final_required = required1;
 
                                 if size1 < 128 {
-                                    let offset2 = cur_off + required1;
-                                    if offset2 + (PREFIX_META_SIZE as u64) <= block.used {
+                                    let offset2 = cur_off.saturating_add(required1);
+                                    if offset2.saturating_add(PREFIX_META_SIZE as u64) <= block.used {
                                         let mut meta_buf2 = [0u8; PREFIX_META_SIZE];
                                         block.mmap.read(
                                             (block.offset + offset2) as usize,
@@ -758,16 +755,13 @@ impl Walrus {
                                             let mut aligned2 = AlignedVec::with_capacity(meta_len2);
                                             aligned2
                                                 .extend_from_slice(&meta_buf2[2..2 + meta_len2]);
-                                            let archived2 = unsafe {
-                                                rkyv::archived_root::<Metadata>(&aligned2[..])
-                                            };
-                                            let meta2_res: Result<Metadata, _> =
-                                                archived2.deserialize(&mut rkyv::Infallible);
-                                            let meta2 = meta2_res
-                                                .expect("infallible metadata deserialize");
-                                            let size2 = meta2.read_size;
-                                            let required2 = (PREFIX_META_SIZE + size2) as u64;
-                                            final_required = required1 + required2;
+                                            // a damaged second header only means "no double peek"
+                                            if let Some(meta2) = decode_metadata(&aligned2[..]) {
+                                                let size2 = meta2.read_size;
+                                                let required2 = (PREFIX_META_SIZE as u64)
+                                                    .saturating_add(size2 as u64);
+                                                final_required = required1.saturating_add(required2);
+                                            }
                                         }
                                     }
                                 }
@@ -840,14 +834,13 @@ impl Walrus {
 
                         let mut aligned = AlignedVec::with_capacity(meta_len);
                         aligned.extend_from_slice(&meta_buf[2..2 + meta_len]);
-                        let archived = unsafe { rkyv::archived_root::<Metadata>(&aligned[..]) };
-                        let meta: Metadata = match archived.deserialize(&mut rkyv::Infallible) {
-                            Ok(m) => m,
-                            Err(_) => break,
+                        let meta: Metadata = match decode_metadata(&aligned[..]) {
+                            Some(m) => m,
+                            None => break,
                         };
                         let data_size = meta.read_size;
-                        let entry_total = (PREFIX_META_SIZE + data_size) as u64;
-                        let entry_end = scan_pos + entry_total;
+                        let entry_total = (PREFIX_META_SIZE as u64).saturating_add(data_size as u64);
+                        let entry_end = scan_pos.saturating_add(entry_total);
 
                         // Special handling for start_offset = 0 to skip small initial entries (likely internal metadata)
                         if rem == 0 && data_size < 128 {
@@ -1051,19 +1044,18 @@ impl Walrus {
                 let mut aligned = AlignedVec::with_capacity(meta_len);
                 aligned.extend_from_slice(&buffer[buf_offset + 2..buf_offset + 2 + meta_len]);
 
-                let archived = unsafe { rkyv::archived_root::<Metadata>(&aligned[..]) };
-                let meta: Metadata = match archived.deserialize(&mut rkyv::Infallible) {
-                    Ok(m) => m,
-                    Err(_) => {
+                let meta: Metadata = match decode_metadata(&aligned[..]) {
+                    Some(m) => m,
+                    None => {
                         break; // Parse error - stop
                     }
                 };
 
                 let data_size = meta.read_size;
-                let entry_consumed = PREFIX_META_SIZE + data_size;
+                let entry_consumed = PREFIX_META_SIZE.saturating_add(data_size);
 
                 // Check if we have enough buffer space for the data
-                if buf_offset + entry_consumed > buffer.len() {
+                if buf_offset.saturating_add(entry_consumed) > buffer.len() {
                     stop_all = true;
                     break; // Incomplete entry
                 }
